@@ -319,7 +319,7 @@ func TestC14Strace(t *testing.T) {
 	idx := 0
 	for _, sc := range calls {
 		completedInARow := 0
-		for n := 1; n <= maxN && completedInARow < 3; n += stepQuick {
+		for n := 1; n <= maxN && completedInARow < 3; n += stepAt(n, stepQuick) {
 			idx++
 			if !run.Mine(idx) {
 				continue
@@ -400,4 +400,12 @@ func TestC14Strace(t *testing.T) {
 			os.RemoveAll(dir)
 		}
 	}
+}
+
+// stepAt: every N up to 12 (the opening and migration of the database), then the tier's stride.
+func stepAt(n, stride int) int {
+	if n < 12 {
+		return 1
+	}
+	return stride
 }
